@@ -23,7 +23,19 @@ from .loader import AnalysisError, ClassInfo, Ext, FuncInfo
 
 def k17_entry(ctx, pid: str):
     p, mgr, mod_cls, vec_cls = _mgr_world(ctx)
-    fi = p.get_func("moclo.core.vectors.AbstractVector.assemble")
+    base_fi = p.get_func("moclo.core.vectors.AbstractVector.assemble")
+    todo, seen = [(vec_cls, base_fi)], {id(base_fi)}
+    for kc in ctx.inventory:
+        if p.is_subclass(kc.ci, vec_cls):
+            raw = p.class_attr_def(kc.ci, "assemble")[1]
+            if isinstance(raw, FuncInfo) and id(raw) not in seen:
+                seen.add(id(raw))
+                todo.append((kc.ci, raw))
+    for owner_cls, fi in todo:
+        _k17_one(ctx, pid, p, mgr, mod_cls, owner_cls, fi)
+
+
+def _k17_one(ctx, pid, p, mgr, mod_cls, vec_cls, fi):
     hooks = _entity_hooks(p)
     ID, NAME = Term("ID"), Term("NAME")
 
